@@ -173,8 +173,23 @@ def enumerate_all(depth):
                     yield spine, leaf, 0, "module"
 
 
-def select(plan, seed):
-    """plan: [(depth, count | None)] - None = every program of that nesting depth, a number = seeded sample of that size"""
+def deep_loop_exits():
+    """depth 4, targeted: loop > conditional > loop > conditional > break|continue - a loop exit that crosses two block frames
+    inside a loop that is itself two frames deep (frames-to-pop arithmetic on both sides of the inner loop)"""
+    loops = ["while", "from_to", "from_named", "from_symbounds"]
+    conds = ["if", "ifelse_then", "ifelse_else", "elif_second"]
+    for l1 in loops:
+        for c1 in conds:
+            for l2 in loops:
+                for c2 in conds:
+                    for leaf in ("continue", "break"):
+                        for v in ((0, 1) if c2 != "if" else (0,)):
+                            yield (l1, c1, l2, c2), leaf, v, "fn"
+
+
+def select(plan, seed, deep=0):
+    """plan: [(depth, count | None)] - None = every program of that nesting depth, a number = seeded sample of that size;
+    deep: how many of the targeted depth-4 loop-exit programs (None = all)"""
     out, space, exhaustive_to = [], 0, 0
     rnd = random.Random(seed)
     for depth, count in plan:
@@ -187,6 +202,12 @@ def select(plan, seed):
         else:
             rnd.shuffle(level)
             out += level[:count]
+    d4 = list(deep_loop_exits())
+    space += len(d4)
+    if deep is not None:
+        rnd.shuffle(d4)
+        d4 = d4[:deep]
+    out += d4
     return out, space, exhaustive_to
 
 
